@@ -239,3 +239,26 @@ CHECKS["C16"] = dict(
         technique="exhaustive enumeration of length x split-point x alignment grids on the implementation against a reference implementation",
         ref="DESIGN.md 3/C16"),
 )
+
+CHECKS["C02"] = dict(
+    level="exploration",
+    jobs=lambda tier: [dict(name="c02", variant="o2", sources=["e_c02.c"] + RT, libs=["-lgcrypt"])],
+    coverage=_cov("about 560 settings over the 16 methods (every salt length, cost spellings min/default-explicit/others, yescrypt flavours "
+                  "0/WORM/RW with p,t fields, scrypt N 2^2..2^10 x r{1,2,8} x p{1,2,3}, bsdicrypt counts x single-character salt changes, bcrypt 4 "
+                  "subtypes x cost 4..6); primary settings x (36 boundary lengths x 4 fills + every length 0..511 x 2 fills + small scope + 8-bit "
+                  "specials), other settings x 12 boundary lengths. Every result is compared with the released libxcrypt 4.4.33 and, for md5crypt, "
+                  "sha256crypt, sha512crypt, sha1crypt, NT, descrypt, bigcrypt, bsdicrypt, scrypt, yescrypt flavour 0 and the gost-yescrypt outer "
+                  "layer, with an independent specification-level model; distinct_nontrivial = distinct successful hash strings"),
+    assumptions=["libxcrypt 4.4.33 as installed in the image is the cross-release reference; libgcrypt 1.10 provides the digests for the models",
+                 "yescrypt RW/WORM flavours, sunmd5 and bcrypt rest on the released library only (identical across releases, not re-derived from the papers)",
+                 "the bit-level reference DES is cross-checked against libgcrypt's DES on every run"],
+    nonvacuous=lambda s, t: None if s.get("release_comparisons", 0) > 20000 and s.get("model_comparisons", 0) > 10000 else "too few comparisons",
+    deadline=dict(quick=400, thorough=1700),
+    manifest=dict(
+        text="Bounded exhaustive exploration of the (phrase length, byte fill, salt length, cost spelling) grid for all 16 methods, every result "
+             "compared byte-for-byte with two independent oracles: the released library (cross-release) and specification-level re-implementations "
+             "over libgcrypt (cross-implementation).",
+        note="reference models are hand-written from the public specifications; costs are bounded by the compute budget (rounds <= 10000, bcrypt <= 6, (ye)scrypt <= 1 MiB-ish).",
+        technique="exhaustive enumeration of length x fill x salt x cost grids on the implementation against reference implementations",
+        ref="DESIGN.md 3/C02"),
+)
